@@ -41,14 +41,14 @@ def run(ctx):
     max_exh = 4 if tier == "quick" else 6
     n_random = 300 if tier == "quick" else 4000
 
-    def one(dc, stable, label, perm=None):
-        case = {"kind": "flatten", "label": label, "mother": dc.mother, "stable": sorted(stable),
+    def one(dc, stable, label, perm=None, raw=None):
+        case = {"kind": "flatten", "label": label, "mother": dc.mother, "stable": sorted(stable), "stable_given_as": type(raw).__name__ if raw is not None else "list",
                 "decays": [[k, mode_canon_py(v)] for k, v in dc.decays.items()]}
         before = canon_json(case["decays"])
         want_bf, want_fs = spec_flatten(dc.decays, dc.mother, stable)
         wire_decays = [[k, v.bf, v.daughters.to_list()] for k, v in dc.decays.items()]      # as they are before the call
         try:
-            fl = dc.flatten(stable_particles=stable)
+            fl = dc.flatten(stable_particles=stable if raw is None else raw)
         except Exception as e:
             res.violation(f"flatten raised {type(e).__name__}: {e}", case, clause="flatten")
             res.case()
@@ -164,7 +164,9 @@ def run(ctx):
                     one(dc, [], "history:decay-removed")
     # stable set given as other iterables
     dc = build_chain([("A", ["B", "B", "c"]), ("B", ["d", "E"]), ("E", ["f", "f"])], rng, exact=True)
-    for st in (("B",), {"B"}, ["E"], "E", {"E": 1}):
-        one(dc, list(st) if not isinstance(st, str) else [st], "iterable-kinds")
+    for st in (("B",), {"B"}, ["E"], "E", {"E": 1}, frozenset({"B", "E"}), "B E", ("E", "B")):
+        # a particle is kept stable when `name in container` holds for the container as given (for a str: as a substring)
+        members = [k for k in dc.decays if k != dc.mother and k in st]
+        one(dc, members, "iterable-kinds", raw=st)
     batch.run()
     return res.done()
